@@ -23,6 +23,7 @@ type Case struct {
 	Input  mon.Hex `json:"input,omitempty"`
 	Index  int     `json:"index,omitempty"`
 	Origin string  `json:"origin,omitempty"`
+	Prev   mon.Hex `json:"prev,omitempty"` // dirty-destination cases: the input decoded into the destination before
 }
 
 // refInfo: what the independent grammar says about a byte string (computed once per string).
